@@ -12,7 +12,7 @@ def _c19_case(c):
 
 CONFIG = {
     "properties_file": "Properties/C19.v",
-    "proof_files": ["Base/Prelude.v", "Base/Regex.v", "Proofs/Pack.v", "Proofs/PackTime.v"],
+    "proof_files": ["Base/Prelude.v", "Base/Regex.v", "Base/StrCheck.v", "Proofs/Pack.v", "Proofs/PackTime.v"],
     "model_files": ["Generated/GC19.v", "Model/Pack.v"],
     "extract": "XC19.v",
     "ml_main": "c19_main.ml",
